@@ -75,7 +75,17 @@ impl Pool {
 }
 
 pub fn case(payload: &str) -> String {
-    // Keep the whole case inside one wall-clock second as far as possible.
+    // `generate` reads the wall clock: a case whose run crossed a second boundary is repeated.
+    for _ in 0..8 {
+        if let Some(s) = attempt(payload) {
+            return s;
+        }
+    }
+    "CLOCK".to_string()
+}
+
+fn attempt(payload: &str) -> Option<String> {
+    // Keep the whole case inside one wall-clock second.
     let (mut t0, ms) = now_parts();
     if ms > 850 {
         std::thread::sleep(Duration::from_millis((1005 - ms) as u64));
@@ -95,7 +105,7 @@ pub fn case(payload: &str) -> String {
     for a in 0..pool.secrets.len() {
         for b in 0..pool.secrets.len() {
             if pool.secrets[a].id().cmp(&pool.secrets[b].id()) != pool.ranks[a].cmp(&pool.ranks[b]) {
-                return "BADRANK".to_string();
+                return Some("BADRANK".to_string());
             }
         }
     }
@@ -163,5 +173,8 @@ pub fn case(payload: &str) -> String {
         pool.generated.clear();
         outs.push(toks.join(" "));
     }
-    outs.join(" || ")
+    if now_parts().0 != t0 {
+        return None;
+    }
+    Some(outs.join(" || "))
 }
